@@ -8,7 +8,8 @@
 //! the property statement on the implementation itself: day counts move the day number exactly or
 //! are refused exactly outside the range; durations move a date by their whole days (truncated
 //! toward zero); date differences are exact; date-time sums are exact in nanoseconds or refused
-//! exactly when the instant is not representable; `sub = add∘neg`; differences are exact, so
+//! exactly when the instant is not representable (leap-second operands: C07's extended-line rule for
+//! the time of day, carried days applied to the date); `sub = add∘neg`; differences are exact, so
 //! `b + (a − b) = a` and the order follows the sign; operators agree with the checked forms or
 //! panic; zone-aware values behave as their UTC readings whatever the offset; iterators step by
 //! 1 / 7 days, stop at the range limit, and their length hint is the number of items produced.
@@ -147,6 +148,20 @@ fn s_td(r: &Result<TimeDelta, ()>) -> String {
         Ok(d) => show_td(d),
         Err(()) => "panic".into(),
     }
+}
+
+/// C07's extended-line rule for a time of day `(secs, frac)` plus `delta` ns: the resulting
+/// `(secs, frac)` and the carry in seconds (a multiple of 86 400)
+fn spec_add(secs: u32, frac: u32, delta: i128) -> (u32, u32, i128) {
+    let p = secs as i128 * NS + frac as i128 + delta;
+    let l = (secs as i128 + 1) * NS;
+    let leap = frac as i128 >= NS;
+    if leap && l <= p && p < l + NS {
+        return (secs, (p - secs as i128 * NS) as u32, 0);
+    }
+    let p2 = if leap && p >= l + NS { p - NS } else { p };
+    let s = p2.div_euclid(NS);
+    (s.rem_euclid(86_400) as u32, p2.rem_euclid(NS) as u32, s - s.rem_euclid(86_400))
 }
 
 /// at most 40 reports per kind of failure; every failure is counted
@@ -549,9 +564,31 @@ pub fn run(c: &mut Ctx) {
                 }
             }
         } else {
-            c.count("dt±delta:leap-second-operand(correspondence only; rules are C07's)");
-            if got.is_err() {
-                fl.hit(c, "NaiveDateTime::checked_add_signed/checked_sub_signed panicked", || format!("{name} {:?} {ds} {dnn}", dt));
+            // leap-second operand: C07's extended-line rule for the time of day, carried days to the date
+            let (es, ef, carry) = spec_add(dt.time().num_seconds_from_midnight(), dt.time().nanosecond(), signed);
+            let day = dn(&dt.date()) as i128 + carry / 86_400;
+            let in_range = day >= dmin as i128 && day <= dmax as i128;
+            c.count(if !in_range {
+                "dt±delta:leap-operand,refused"
+            } else if ef >= 1_000_000_000 {
+                "dt±delta:leap-operand,stays-in-leap-second"
+            } else if carry != 0 {
+                "dt±delta:leap-operand,carry-to-date"
+            } else {
+                "dt±delta:leap-operand,same-day"
+            });
+            match &got {
+                Ok(Some(r)) => {
+                    if !in_range || dn(&r.date()) as i128 != day || (r.time().num_seconds_from_midnight(), r.time().nanosecond()) != (es, ef) || !well_formed(&r.date()) {
+                        fl.hit(c, "date-time with a leap-second operand: time of day or carried days differ from the documented rule", || format!("{name} {:?} {ds} {dnn} -> {}", dt, pdt(r)));
+                    }
+                }
+                Ok(None) => {
+                    if in_range {
+                        fl.hit(c, "date-time ± duration refused although the result is representable (leap-second operand)", || format!("{name} {:?} {ds} {dnn}", dt));
+                    }
+                }
+                Err(()) => fl.hit(c, "NaiveDateTime::checked_add_signed/checked_sub_signed panicked", || format!("{name} {:?} {ds} {dnn}", dt)),
             }
         }
         // operator forms
